@@ -85,7 +85,7 @@ def finalize(results, counters, tier, seed):
     if mon.get("multi-block-dumps", 0) == 0:
         inc.append("no dump with >= 2 blocks")
     miss = [t for t in ("m-multi-rank-intersector", "m-sequencer", "m-three-level", "m-configs2")
-            if counters.get("strata_ok", {}).get(t, 0) == 0]
+            if counters.get("strata_compiled", {}).get(t, 0) == 0]
     if miss:
         inc.append("strata never executed: %r" % miss)
     cov = {"rule": "C11's corpus biased to cascades (2-3 Einsums, 1-2 configurations); the dump "
